@@ -210,12 +210,52 @@ def random_full_table(rng, kind, n):
     return words, mode
 
 
+def targeted_full_tables():
+    """real-size well-formed tables that stress the decoders' bookkeeping (S83): long chains written backwards, so that
+    the outer loop meets the tail first and every later start re-walks it; a nearly full disc plus a backwards file."""
+    out = []
+    for kind, n, lo, hi, endw in (("akai", 11386, 3, 11386, EOF_), ("roland", 65536, 2, 65536 - 9, F_END)):
+        for L in (400, 3000):
+            words = [0] * n
+            c = list(range(lo + 10 + L - 1, lo + 10 - 1, -1))      # descending
+            for a, b in zip(c, c[1:]):
+                words[a] = b
+            words[c[-1]] = endw
+            up = list(range(lo + 10 + L + 5, lo + 10 + L + 5 + 50))  # and an ascending neighbour
+            for a, b in zip(up, up[1:]):
+                words[a] = b
+            words[up[-1]] = endw
+            out.append((kind, f"descending-{L}", words, [c, up]))
+        # every allocatable entry in use: 8-entry files in ascending order, one of them written backwards
+        words = [0] * n
+        chains = []
+        pos = lo
+        k = 0
+        while pos + 8 <= hi:
+            c = list(range(pos, pos + 8))
+            if k == 5:
+                c.reverse()
+            for a, b in zip(c, c[1:]):
+                words[a] = b
+            words[c[-1]] = endw
+            chains.append(c)
+            pos += 8
+            k += 1
+        out.append((kind, "full-disc", words, chains[:12] + chains[-3:]))
+    if True:
+        for item in out:
+            if item[0] == "roland":
+                item[2][0] = 0xFFFA
+                item[2][-1] = item[2][-2] = 0xFFFF
+    return out
+
+
 def run(ctx, rep: Report, deep: bool = False):
     rng = ctx.rng
     rep.rule = (
         "exhaustive: every raw AKAI SAT of 5 sectors over {free,EOF,reserved x2, each link, out-of-range} (59049 tables; quick: a seed-rotated 1/6 stripe) "
         "and every Roland FAT of 12 entries with 1 usable..., decode + get_path from every start; every link table of 4 entries x size x start for get_path; "
-        "random real-size tables (11386 / 65536 words) with injected cycles, self-links, cross-links, merges, runs off the end; "
+        "random real-size tables (11386 / 65536 words) with injected cycles, self-links, cross-links, merges, runs off the end; targeted real-size well-formed tables (chains of 400 and 3000 entries written backwards, a full disc of 8-entry files with one written backwards); "
         "distinct = distinct op line; non-trivial = table with at least one link word"
     )
     cases = []
@@ -314,10 +354,30 @@ def run(ctx, rep: Report, deep: bool = False):
                         rep.findings.append(Finding("getpath-nontermination", {"kind": kind, "mode": mode, "start": s0, "size": size}))
                     except Exception:
                         pass
+    # --- targeted real-size tables (oracle only)
+    for kind, tag, words, chains in targeted_full_tables():
+        try:
+            fat = impl.akai_decode(words, 60) if kind == "akai" else impl.roland_decode(words, 60)
+        except BaseException as e:  # noqa
+            if isinstance(e, (KeyboardInterrupt, SystemExit)):
+                raise
+            rep.findings.append(Finding(f"{kind}-wf-table-refused", {"kind": kind, "table": tag, "error": impl.exc_name(e), "chains": [c[:4] + ["..."] + c[-2:] if len(c) > 8 else c for c in chains[:3]]}))
+            continue
+        for c in chains:
+            try:
+                with impl.watchdog(5):
+                    p = fat.get_path(c[0])
+            except BaseException as e:  # noqa
+                p = "err " + impl.exc_name(e)
+            if p != c:
+                rep.findings.append(Finding(f"{kind}-wf-chain-misresolved-{tag}", {"kind": kind, "table": tag, "chain_head": c[:6], "chain_len": len(c), "got": str(p)[:200]}))
+                break
+        rep.feat("targeted_full_tables")
+        rep.feat(f"targeted_{kind}_{tag}")
     if ctx.model_available:
         compare_family(rep, "fat", cases, nontrivial=lambda c: True, exhaustive=True)
     rep.exhaustive = not ctx.quick
-    rep.required_features = ["akai_small_tables", "roland_small_tables", "wf_chains_checked", "wf_chains_head_not_lowest", "getpath_cases"]
+    rep.required_features = ["akai_small_tables", "roland_small_tables", "wf_chains_checked", "wf_chains_head_not_lowest", "getpath_cases", "targeted_full_tables"]
 
 
 def search(ctx, rep: Report):
